@@ -105,13 +105,14 @@ type normaliser struct {
 	repo    string
 	consts  map[string]int64         // package-level integer constants of package commands
 	helpers map[string]*ast.FuncDecl // package-level plain functions of package commands
+	cur     *jCmd                    // the structure whose method is being normalised
 	fixed   map[string]int           // types.T -> K when every successful return of T.Unmarshal is the literal K (0: not so)
 	nfresh  int
 }
 
 func newNormaliser(fset *token.FileSet, repo string, files []*ast.File) *normaliser {
 	nz := &normaliser{fset: fset, repo: repo, consts: map[string]int64{}, helpers: map[string]*ast.FuncDecl{}, fixed: map[string]int{}}
-	for pass := 0; pass < 3; pass++ { // constants may refer to each other
+	for pass := 0; pass < 64; pass++ { // constants may refer to each other (a chain of named offsets)
 		for _, af := range files {
 			for _, d := range af.Decls {
 				gd, ok := d.(*ast.GenDecl)
@@ -346,6 +347,16 @@ func countIdent(n ast.Node, name string) int {
 
 func (nz *normaliser) constInt(e ast.Expr, local map[string]int64) (int64, bool) {
 	switch t := e.(type) {
+	case *ast.CallExpr:
+		// len of a field declared as a fixed array
+		if nz.cur != nil && nz.s(t.Fun) == "len" && len(t.Args) == 1 {
+			if m := regexp.MustCompile(`^c\.(\w+)$`).FindStringSubmatch(nz.s(t.Args[0])); m != nil {
+				if n, _ := fixedArrayLen(nz.cur, m[1]); n > 0 {
+					return int64(n), true
+				}
+			}
+		}
+		return 0, false
 	case *ast.BasicLit:
 		if t.Kind != token.INT {
 			return 0, false
@@ -446,14 +457,44 @@ type tile struct {
 	lo, hi int
 	text   []string // canonical statements emitting this tile into stream %s (use fmt with the stream name)
 	epoch  int
+	seq    int      // number of mutation records when the tile was written
+	fields []string // the fields its value reads
+	byteOf string   // M12: the tile is byte `shift`/8 of this field expression
+	shift  int
+}
+
+// mutation: a statement that may change field `field` ("*": any field)
+type mutation struct{ field string }
+
+func (st *mstate) mutate(field string) {
+	st.epoch++
+	st.muts = append(st.muts, mutation{field})
+}
+
+var reFieldRead = regexp.MustCompile(`\bc\.(\w+)`)
+
+func (st *mstate) stale(t tile) bool {
+	for _, m := range st.muts[t.seq:] {
+		if m.field == "*" {
+			return true
+		}
+		for _, f := range t.fields {
+			if f == m.field {
+				return true
+			}
+		}
+	}
+	return false
 }
 
 type fixedBuf struct {
+	slice bool // declared by make([]byte, N): may go on growing by append (M10)
 	n     int
 	tiles []tile
 }
 
 type mstate struct {
+	muts    []mutation
 	epoch   int
 	tables  map[string]*mtable
 	bufs    map[string]*fixedBuf
@@ -485,6 +526,7 @@ var (
 )
 
 func (nz *normaliser) normMarshal(fd *ast.FuncDecl, c *jCmd) []ast.Stmt {
+	nz.cur = c
 	list := fd.Body.List
 	st := &mstate{tables: map[string]*mtable{}, bufs: map[string]*fixedBuf{}, managed: map[string]bool{}, alias: map[string]string{}, used: map[string]bool{}}
 	for n := range identsOf(fd.Body) {
@@ -501,6 +543,7 @@ func (nz *normaliser) normMarshal(fd *ast.FuncDecl, c *jCmd) []ast.Stmt {
 			}
 		}
 	}
+	list = nz.marshalPrelude(fd, list, c, st)
 	// M6 buffers that are indexed or sliced somewhere, or declared as arrays, are handled here, the others (buf2 := make;
 	// PutUint16(buf2, …); append(…, buf2...)) are the recogniser's own dialect
 	ast.Inspect(fd.Body, func(x ast.Node) bool {
@@ -799,7 +842,13 @@ func (nz *normaliser) normMarshalList(list []ast.Stmt, st *mstate, top bool) []a
 			}
 		}
 		// M6
-		if top {
+		if true {
+			if m := regexp.MustCompile(`^(\w+) := make\(\[\]byte, ([^,]+), (.+)\)$`).FindStringSubmatch(s); m != nil && st.managed[m[1]] {
+				if n, ok := nz.constInt(nz.parseExprText(m[2]), nil); ok && n > 0 && nz.nonNeg(nz.parseExprText(m[3]), st.capVars) {
+					st.bufs[m[1]] = &fixedBuf{n: int(n), slice: true}
+					continue
+				}
+			}
 			if m := reArrDecl.FindStringSubmatch(s); m != nil {
 				name, sz := m[1], m[2]
 				if name == "" {
@@ -813,13 +862,68 @@ func (nz *normaliser) normMarshalList(list []ast.Stmt, st *mstate, top bool) []a
 			}
 			if m := reMakeN.FindStringSubmatch(s); m != nil && st.managed[m[1]] {
 				if n, ok := nz.constInt(nz.parseExprText(m[2]), nil); ok && n > 0 {
-					st.bufs[m[1]] = &fixedBuf{n: int(n)}
+					st.bufs[m[1]] = &fixedBuf{n: int(n), slice: true}
 					continue
 				}
 			}
 		}
 		if nz.bufWrite(s0, s, st) {
 			continue
+		}
+		// M11: a loop over a fixed array field that writes into a buffer handled here is its unrolling
+		if rs, ok := s0.(*ast.RangeStmt); ok && strings.HasPrefix(nz.s(rs.X), "c.") && rs.Tok == token.DEFINE {
+			f := nz.s(rs.X)[2:]
+			n, _ := fixedArrayLen(st.cmd, f)
+			touches := false
+			for b := range st.bufs {
+				if countIdent(rs.Body, b) > 0 {
+					touches = true
+				}
+			}
+			if n > 0 && touches {
+				for _, b := range rs.Body.List {
+					if !nz.emissionOnly(b) {
+						fail(nz.fset, b, "Marshal: the body of a loop over %s writing into a buffer does more than emit: %s", f, nz.s(b))
+					}
+				}
+				var unrolled []ast.Stmt
+				for k := 0; k < n; k++ {
+					m := map[string]string{}
+					if id, ok := rs.Key.(*ast.Ident); ok && id.Name != "_" {
+						m[id.Name] = strconv.Itoa(k)
+					}
+					if id, ok := rs.Value.(*ast.Ident); ok && id.Name != "_" {
+						m[id.Name] = fmt.Sprintf("c.%s[%d]", f, k)
+					}
+					for _, b := range rs.Body.List {
+						for name := range m {
+							if nz.assignCount(b, name) > 0 {
+								fail(nz.fset, b, "Marshal: a loop variable is assigned")
+							}
+						}
+						nb := nz.clone(b)
+						originPos[nb] = posOf(orig)
+						nz.substIdents(nb, m)
+						unrolled = append(unrolled, nb)
+					}
+				}
+				out = append(out, nz.normMarshalList(unrolled, st, false)...)
+				continue
+			}
+		}
+		// M10: a make([]byte, N) head that is grown by append becomes the appends of its tiles, here
+		if as, ok := s0.(*ast.AssignStmt); ok && as.Tok == token.ASSIGN && len(as.Lhs) == 1 && len(as.Rhs) == 1 {
+			if id, ok := as.Lhs[0].(*ast.Ident); ok && st.bufs[id.Name] != nil && st.bufs[id.Name].slice {
+				if ce, ok := as.Rhs[0].(*ast.CallExpr); ok && nz.s(ce.Fun) == "append" && len(ce.Args) >= 2 && nz.s(ce.Args[0]) == id.Name && countIdent(as.Rhs[0], id.Name) == 1 {
+					emit(id.Name+" := []byte{}", s0)
+					for _, code := range nz.bufEmit(orig, id.Name, id.Name, st) {
+						emit(code, s0)
+					}
+					delete(st.bufs, id.Name)
+					out = append(out, nz.normMarshalList([]ast.Stmt{s0}, st, false)...)
+					continue
+				}
+			}
 		}
 		if m := reAppendWhole.FindStringSubmatch(s); m != nil && m[1] == m[2] && st.bufs[m[3]] != nil {
 			for _, code := range nz.bufEmit(orig, m[3], m[1], st) {
@@ -837,7 +941,7 @@ func (nz *normaliser) normMarshalList(list []ast.Stmt, st *mstate, top bool) []a
 			}
 		}
 		if m := reDFlush.FindStringSubmatch(s); m != nil {
-			if m[1] == "nil" && !st.used["rawDataContent"] {
+			if (m[1] == "nil" || m[1] == "[]byte{}") && !st.used["rawDataContent"] {
 				emit("c.GetData().Add(rawDataContent)", s0)
 				continue
 			}
@@ -852,7 +956,18 @@ func (nz *normaliser) normMarshalList(list []ast.Stmt, st *mstate, top bool) []a
 		// pass through; nested bodies are normalised too
 		switch t := s0.(type) {
 		case *ast.IfStmt:
-			st.epoch++
+			if s == errCheckM {
+				// `if err != nil { return nil, err }` changes nothing
+				out = append(out, s0)
+				continue
+			}
+			if nc, ok := nz.orOfAllElements(t.Cond, st.cmd); ok && t.Init == nil {
+				cp := nz.clone(s0).(*ast.IfStmt)
+				cp.Cond = nz.parseExprText(nc)
+				flatten(cp, posOf(s0))
+				s0, t = cp, cp
+			}
+			st.mutate("*")
 			if t.Else == nil && t.Init == nil {
 				nb := nz.normMarshalList(t.Body.List, st, false)
 				if !sameStmts(nb, t.Body.List) {
@@ -861,19 +976,21 @@ func (nz *normaliser) normMarshalList(list []ast.Stmt, st *mstate, top bool) []a
 					s0 = cp
 				}
 			}
-			st.epoch++
+			st.mutate("*")
 		case *ast.RangeStmt:
-			st.epoch++
+			st.mutate("*")
 			nb := nz.normMarshalList(t.Body.List, st, false)
 			if !sameStmts(nb, t.Body.List) {
 				cp := nz.clone(s0).(*ast.RangeStmt)
 				cp.Body.List = nb
 				s0 = cp
 			}
-			st.epoch++
+			st.mutate("*")
 		default:
-			if reMutation.MatchString(s) || !nz.emissionOnly(s0) {
-				st.epoch++
+			if m := regexp.MustCompile(`^(?:\w+, err :?= c\.(\w+)\.Marshal\(\)|c\.(\w+)\.SetBufferFormat\(.*\)|c\.(\w+)[\w.\[\]]* = .*)$`).FindStringSubmatch(s); m != nil {
+				st.mutate(m[1] + m[2] + m[3])
+			} else if !nz.emissionOnly(s0) {
+				st.mutate("*")
 			}
 		}
 		out = append(out, s0)
@@ -897,6 +1014,12 @@ func sameStmts(a, b []ast.Stmt) bool {
 func (nz *normaliser) bufWrite(s0 ast.Stmt, s string, st *mstate) bool {
 	add := func(name string, t tile) {
 		b := st.bufs[name]
+		t.seq = len(st.muts)
+		for _, line := range t.text {
+			for _, m := range reFieldRead.FindAllStringSubmatch(line, -1) {
+				t.fields = append(t.fields, m[1])
+			}
+		}
 		if t.lo < 0 || t.hi > b.n {
 			fail(nz.fset, s0, "Marshal: write [%d,%d) outside the %d-byte buffer %s", t.lo, t.hi, b.n, name)
 		}
@@ -1014,12 +1137,37 @@ func (nz *normaliser) bufEmit(at ast.Stmt, name, stream string, st *mstate) []st
 	sort.Slice(tiles, func(i, j int) bool { return tiles[i].lo < tiles[j].lo })
 	pos := 0
 	var out []string
-	for _, t := range tiles {
+	rePutElem := regexp.MustCompile(`^binary\.(Little|Big)Endian\.PutUint(16|32|64)\(\$B, uint(16|32|64)\(c\.(\w+)\[(\d+)\]\)\)$`)
+	for ti := 0; ti < len(tiles); ti++ {
+		t := tiles[ti]
+		// M11: the run uintW(c.F[0]) … uintW(c.F[n-1]) is the dialect's loop over c.F
+		if len(t.text) == 3 {
+			if m := rePutElem.FindStringSubmatch(t.text[1]); m != nil && m[5] == "0" && m[2] == m[3] {
+				n, _ := fixedArrayLen(st.cmd, m[4])
+				run := n > 0 && ti+n <= len(tiles)
+				for k := 0; run && k < n; k++ {
+					tk := tiles[ti+k]
+					mk := rePutElem.FindStringSubmatch(strings.Join(tk.text[1:2], ""))
+					if len(tk.text) != 3 || mk == nil || mk[1] != m[1] || mk[2] != m[2] || mk[3] != m[3] || mk[4] != m[4] || mk[5] != strconv.Itoa(k) ||
+						tk.lo != t.lo+k*(t.hi-t.lo) || tk.hi-tk.lo != t.hi-t.lo || st.stale(tk) {
+						run = false
+					}
+				}
+				if run && t.lo == pos {
+					nb, v := nz.fresh("buf", st.used), nz.fresh("elem", st.used)
+					out = append(out, fmt.Sprintf("for _, %s := range c.%s {\n%s := make([]byte, %d)\nbinary.%sEndian.PutUint%s(%s, uint%s(%s))\n%s = append(%s, %s...)\n}",
+						v, m[4], nb, t.hi-t.lo, m[1], m[2], nb, m[3], v, stream, stream, nb))
+					pos = tiles[ti+n-1].hi
+					ti += n - 1
+					continue
+				}
+			}
+		}
 		if t.lo != pos {
 			fail(nz.fset, at, "Marshal: bytes [%d,%d) of the buffer %s are never written (the writes must tile it exactly)", pos, t.lo, name)
 		}
-		if t.epoch != st.epoch {
-			fail(nz.fset, at, "Marshal: a statement that may change a field stands between a write into %s and its use", name)
+		if st.stale(t) {
+			fail(nz.fset, at, "Marshal: a statement that may change a field it reads stands between a write into %s and its use", name)
 		}
 		nb := nz.fresh("buf", st.used)
 		for _, line := range t.text {
@@ -1114,15 +1262,20 @@ func (nz *normaliser) canonEpilogue(list []ast.Stmt, st *mstate) []ast.Stmt {
 // Unmarshal
 
 func (nz *normaliser) normUnmarshal(fd *ast.FuncDecl, c *jCmd) []ast.Stmt {
+	nz.cur = c
 	list := fd.Body.List
 	orig := list
 	list = nz.splitIfInit(list)
 	list = nz.mapBlocks(list, nz.elseReturn)
+	list = nz.exprClosures(fd, list)
 	list = nz.inlineCalls(fd, list)
+	list = nz.cursor(fd, list)
+	list = nz.shrinkingSlice(list)
+	list = nz.mapBlocks(list, nz.intTemps)
 	list = nz.mapBlocks(list, nz.guardForms)
 	list = nz.mapBlocks(list, nz.sliceTemps)
+	list = nz.mapBlocks(list, nz.byteAssembly)
 	list = nz.mapBlocks(list, nz.hoistedBound)
-	list = nz.cursor(fd, list)
 	list = nz.header(list)
 	if sameStmts(list, orig) {
 		return orig
@@ -1187,7 +1340,7 @@ func (nz *normaliser) splitIfInit(list []ast.Stmt) []ast.Stmt {
 		changed := false
 		for _, s := range l {
 			if is, ok := s.(*ast.IfStmt); ok && is.Init != nil && is.Else == nil {
-				if as, ok := is.Init.(*ast.AssignStmt); ok && as.Tok == token.ASSIGN {
+				if as, ok := is.Init.(*ast.AssignStmt); ok && (as.Tok == token.ASSIGN || onlyErrDefined(as)) {
 					cp := nz.clone(s).(*ast.IfStmt)
 					init := cp.Init
 					cp.Init = nil
@@ -1888,6 +2041,22 @@ func (nz *normaliser) inlineOne(cl *callee, call *ast.AssignStmt, ce *ast.CallEx
 				return nil, false
 			}
 			subst[p] = id.Name
+			continue
+		}
+		if ue, isAddr := arg.(*ast.UnaryExpr); isAddr && ue.Op == token.AND && nz.pureOperand(ue.X) {
+			// a pointer to a field, only ever dereferenced by the callee: `*p` is the field itself
+			if !nz.onlyDereferenced(blk, p) {
+				return nil, false
+			}
+			target := nz.printNode(ue.X)
+			rewriteExprs(blk, func(e ast.Expr) (ast.Expr, bool) {
+				if st, ok := e.(*ast.StarExpr); ok {
+					if id, ok := st.X.(*ast.Ident); ok && id.Name == p {
+						return nz.parseExprText(target), true
+					}
+				}
+				return nil, false
+			})
 			continue
 		}
 		if _, isLit := arg.(*ast.BasicLit); !isLit && !nz.pureOperand(arg) {
